@@ -649,3 +649,76 @@ def declare_recovery(reg):
         {"name": "crash-keeps-acknowledged-flags", "module": "harness.persist", "func": "CrashFlags"})
     for pid in ("C11", "C02", "C13"):
         reg.properties.setdefault(pid, {}).setdefault("lean", []).append("lean/Pigeonhole.lean")
+
+
+def declare_store(reg):
+    """Mailbox.store (C04): STORE +FLAGS / -FLAGS / FLAGS changes exactly the named flags of exactly the addressed messages."""
+    P = "asimap/mbox.py"
+    ADD, REM, REP = "StoreAction.ADD_FLAGS", "StoreAction.REMOVE_FLAGS", "StoreAction.REPLACE_FLAGS"
+    reg.enum("asimap/parse.py", "StoreAction")
+
+    def spec(done_k, done_f, base):
+        """mem(self.sequences, s, k) as a function of the state `base`, for the keys selected by done_k and the flags selected by done_f"""
+        add = f"ite({done_k} and {done_f('s')}, True, ite({done_k} and {done_f(repr('Seen'))} and s == 'unseen', False, mem({base}(self.sequences), s, k)))"
+        rem = f"ite({done_k} and {done_f('s')}, False, ite({done_k} and {done_f(repr('Seen'))} and s == 'unseen', True, mem({base}(self.sequences), s, k)))"
+        return add, rem
+
+    K_ALL = "k in local_keys"
+    F_ALL = lambda x: f"{x} in local_flags"  # noqa: E731
+    add_all, rem_all = [e.replace("local_keys", "local('msg_keys')").replace("local_flags", "local('flags')") for e in spec(K_ALL, F_ALL, "old")]
+    rep_all = ("ite(k in local('msg_keys'), (s in local('flags')) or (s == 'unseen' and 'Seen' not in local('flags')) or (s == 'Recent' and mem(old(self.sequences), 'Recent', k)), "
+               "mem(old(self.sequences), s, k))")
+    # outer loop: keys before position _i are done completely
+    K_DONE = "(k in msg_keys and pos(msg_keys, k) < _i)"
+    add_o, rem_o = spec(K_DONE, lambda x: f"{x} in flags", "lpre")
+    rep_o = (f"ite({K_DONE}, (s in flags) or (s == 'unseen' and 'Seen' not in flags) or (s == 'Recent' and mem(lpre(self.sequences), 'Recent', k)), mem(lpre(self.sequences), s, k))")
+    # inner loop (one key): flags before position _i are done
+    add_i, rem_i = spec("k == key", lambda x: f"({x} in flags and pos(flags, {x}) < _i)", "lpre")
+    reg.contract(
+        P, "Mailbox.store", uses_invariant=True,
+        params={"self": "ref:Mailbox", "msg_set": "list[int]", "action": "enum:StoreAction", "flags": "list[str]", "uid_cmd": "bool", "dont_notify": "opt[ref:Authenticated]"},
+        ret="list[str]",
+        requires={
+            # what the management task's resolution guarantees: positions of existing messages, each once
+            "positions-exist": "forall(lambda j: implies(0 <= j and j < len(msg_set), 1 <= msg_set[j] and msg_set[j] <= len(self.msg_keys)))",
+            "positions-distinct": "distinct(msg_set)",
+            # outside known finding F05: a keyword atom that IS a reserved sequence name aliases a system flag
+            "no-reserved-keyword-atoms": "forall(lambda j: implies(0 <= j and j < len(flags), seq_of_flag(flags[j]) != 'unseen' and (flags[j] == '\\\\Recent' or seq_of_flag(flags[j]) != 'Recent')))",
+            "disk-seqs-current": "forall(lambda s, k: mem(self.mailbox.g_seqs, s, k) == mem(self.sequences, s, k), 'str', 'int')",
+        },
+        ensures={
+            # (d) +FLAGS adds exactly the named flags to exactly the addressed messages (\\Seen also clears `unseen`)
+            "add-exact": f"implies(action == {ADD}, forall(lambda s, k: mem(self.sequences, s, k) == {add_all}, 'str', 'int'))",
+            # (e) -FLAGS removes exactly them (\\Seen also sets `unseen`)
+            "remove-exact": f"implies(action == {REM}, forall(lambda s, k: mem(self.sequences, s, k) == {rem_all}, 'str', 'int'))",
+            # (f) FLAGS replaces: the message has exactly the named flags afterwards, \\Recent is kept as it was
+            "replace-exact": f"implies(action == {REP}, forall(lambda s, k: mem(self.sequences, s, k) == {rep_all}, 'str', 'int'))",
+            "one-response-per-message": "len(result) == len(msg_set)",
+            # C13: what MH tools see is what IMAP clients see
+            "mh-sequences-written": "forall(lambda s, k: mem(self.mailbox.g_seqs, s, k) == mem(self.sequences, s, k), 'str', 'int')",
+            # C11/C12: the change is committed before the tagged reply
+            "committed": "forall(lambda s, k: mem(self.g_db_seqs, s, k) == mem(self.sequences, s, k), 'str', 'int')",
+            "uid-state-untouched": "same(self.msg_keys, old(self.msg_keys)) and same(self.uids, old(self.uids)) and self.next_uid == old(self.next_uid)",
+        },
+        # \\Recent can not be set or cleared by a client
+        raises={"No": "'\\\\Recent' in flags"},
+        exc_ensures={"refused-untouched": "same(self.sequences, old(self.sequences))"},
+        loops={
+            0: {"invariant": {
+                "add-so-far": f"implies(action == {ADD}, forall(lambda s, k: mem(self.sequences, s, k) == {add_o}, 'str', 'int'))",
+                "remove-so-far": f"implies(action == {REM}, forall(lambda s, k: mem(self.sequences, s, k) == {rem_o}, 'str', 'int'))",
+                "replace-so-far": f"implies(action == {REP}, forall(lambda s, k: mem(self.sequences, s, k) == {rep_o}, 'str', 'int'))",
+                "one-each": "len(response) == _i and len(notifications) == _i",
+            }},
+            1: {"invariant": {
+                "add-flags-so-far": f"implies(action == {ADD}, forall(lambda s, k: mem(self.sequences, s, k) == {add_i}, 'str', 'int'))",
+                "remove-flags-so-far": f"implies(action == {REM}, forall(lambda s, k: mem(self.sequences, s, k) == {rem_i}, 'str', 'int'))",
+            }},
+        },
+        locals_={"notifications": "list[str]", "response": "list[str]"},
+        modifies=["self.sequences", "MH.g_seqs", "*.pending_notifications", "ClientProxy.g_out",
+                  "self.g_db_seqs", "self.g_db_exists", "self.g_db_uid_vv", "self.g_db_next_uid", "self.g_db_uids", "self.g_db_msg_keys", "self.g_db_subscribed", "self.g_db_num_msgs"],
+        keeps_invariant=True, is_async=True,
+        props=["C04", "C13"],
+        ghost={"inv_except": ["seq-keys-exist"]},
+    )
